@@ -33,6 +33,10 @@ EXPECTED_MISS = {
                 '(C01/C02/C15 decline with exit 2)',
     'C09-r6-2': 'breaks reload behaviour without a main file (C10.RESET, '
                 'C12 and C20 fire), not the layering order C09 states',
+    'C20-r8-1': 'pre-fills the not yet published store so that a concurrent '
+                'caller no longer finds it empty and no longer reloads for '
+                'itself: the write discipline is unchanged, what changes is '
+                'an emergent self-heal no structural rule states',
 }
 # seeded changes on which the target check declines (exit 2) instead of
 # reporting the violation
@@ -63,7 +67,6 @@ NEUTRAL_DECLINED = {
     'C13-n4-2': {'C13': 'recursive walker replaced by a work list'},
     'C13-n4-3': {'C13': 'walker answers collected in comprehensions'},
     'C17-n4-1': {'C17': 'help formatter rewritten as a block generator'},
-    'C17-n4-2': {'C17': 'sample node assembled from chunk lists'},
     'C17-n4-3': {'C17': 'formatter chosen from a table of closures'},
 }
 NEUTRAL_DECLINED.update({
